@@ -214,10 +214,12 @@ def Inst.ofST (n : Nat) (arcs : List Arc) (s t : Nat) (demand : Int) : Inst :=
 /-- super source `n` / super sink `n+1` reduction of a transshipment instance to an s-t one
 (driver glue for `network_simplex` instances; its result is only used through the checkers) -/
 def Inst.toST (I : Inst) : Inst × Int :=
-  let extra := (List.range I.n).flatMap fun v =>
-    if 0 < I.sup v then [Arc.mk I.n v (I.sup v) 0]
-    else if I.sup v < 0 then [Arc.mk v (I.n + 1) (- I.sup v) 0] else []
-  let d := lsum (List.range I.n) fun v => if 0 < I.sup v then I.sup v else 0
+  -- node `n` feeds every node `v` through an arc of capacity max(sup v, 0), node `n+1` drains every node
+  -- through an arc of capacity max(-sup v, 0) (zero-capacity arcs are never residual); arc indices
+  -- `m + v` and `m + n + v`
+  let extra := (List.range I.n).map (fun v => Arc.mk I.n v (max (I.sup v) 0) 0) ++
+    (List.range I.n).map (fun v => Arc.mk v (I.n + 1) (max (- I.sup v) 0) 0)
+  let d := lsum (List.range I.n) fun v => max (I.sup v) 0
   (Inst.ofST (I.n + 2) (I.arcs ++ extra) I.n (I.n + 1) d, d)
 
 /-- certified `min_cost_flow(graph, s, t, demand)` on the per-arc network -/
